@@ -104,8 +104,10 @@ func withTimeout(d time.Duration, f func() (interface{}, error)) (interface{}, e
 func decodeAll(data []byte, max int) ([]jEntry, string) {
 	dec := log.NewEntryDecoder(bytes.NewReader(data))
 	var out []jEntry
+	// one Entry variable for the whole stream, the way callers loop over a decoder: nothing of an
+	// entry may show in the next one
+	var e log.Entry
 	for len(out) < max {
-		var e log.Entry
 		if err := dec.Decode(&e); err != nil {
 			if err == io.EOF {
 				return out, ""
@@ -424,6 +426,62 @@ func init() {
 				}
 				take()
 				return map[string]interface{}{"snaps": snaps}, nil
+			})
+		})
+	})
+
+	// logSecondary: a secondary logger (the kind shakespeare uses for its narrator, spotlight, audit and
+	// collector logs) with garbage collection enabled, in the scratch log directory or in a directory of
+	// its own: N messages with a small LogFileMaxSize (one file per few messages), flush, wait until the
+	// directory is quiet; reports the secondary logger's files, newest first.
+	register("logSecondary", func(raw json.RawMessage) (interface{}, error) {
+		var a struct {
+			MaxSize  int64
+			Combined int64
+			N        int
+			OwnDir   bool
+		}
+		if err := json.Unmarshal(raw, &a); err != nil {
+			return nil, err
+		}
+		return withTimeout(60*time.Second, func() (interface{}, error) {
+			return inLogScope(func(dir string) (interface{}, error) {
+				atomic.StoreInt64(&log.LogFileMaxSize, a.MaxSize)
+				atomic.StoreInt64(&log.LogFilesCombinedMaxSize, a.Combined)
+				ctx := context.Background()
+				var dn *log.DirName
+				where := dir
+				if a.OwnDir {
+					where = filepath.Join(dir, "own")
+					if err := os.MkdirAll(where, 0755); err != nil {
+						return nil, err
+					}
+					dn = &log.DirName{}
+					if err := dn.Set(where); err != nil {
+						return nil, err
+					}
+				}
+				l := log.NewSecondaryLogger(ctx, dn, "sec", true /*enableGc*/, false /*forceSyncWrites*/)
+				for i := 0; i < a.N; i++ {
+					l.Logf(ctx, "secondary message %04d %s", i, strings.Repeat("x", 60))
+					log.Flush()
+				}
+				settle(where, 50*time.Millisecond, 3*time.Second)
+				type fi struct {
+					Name string
+					Size int64
+				}
+				var files []fi
+				for _, n := range dirNames(where) {
+					if strings.Contains(n, "-sec.") && strings.HasSuffix(n, ".log") {
+						st, err := os.Lstat(filepath.Join(where, n))
+						if err == nil && st.Mode().IsRegular() {
+							files = append(files, fi{n, st.Size()})
+						}
+					}
+				}
+				sort.Slice(files, func(i, j int) bool { return files[i].Name > files[j].Name })
+				return map[string]interface{}{"files": files}, nil
 			})
 		})
 	})
